@@ -344,7 +344,7 @@ package pipe
 //@     opt overflow=off
 //@     requires cap(ctl) == ops && ops >= 0
 //@     loop 0 invariant !closed(ctl) && !sawCancel && len(sent(ctl)) == sleeps * ops
-//@     loop 1 invariant !closed(ctl) && !sawCancel && 0 <= i && i <= ops && len(sent(ctl)) == sleeps * ops + i
+//@     loop 1 invariant !closed(ctl) && !sawCancel && 0 <= iter && iter <= ops && len(sent(ctl)) == sleeps * ops + iter
 //@     ensures closes_tokens_only_on_cancel: closed(ctl) && sawCancel
 //@     ensures [C13] ops_tokens_per_interval: len(sent(ctl)) <= sleeps * ops + ops
 //@   go 1:
